@@ -217,6 +217,26 @@ def replay_coll(job):
                 val = np.asarray(g.angle(a, b, c))
         if val.shape != (len(recs),):
             raise ValueError(f"result shape {val.shape}")
+        # the same collections arranged with two collection axes (2 x n/2): the same values, position by position
+        n2 = (len(recs) // 2) * 2
+        if n2 >= 4:
+            def grid(c):
+                arr = np.asarray(c.array)[:n2]
+                return type(c)(arr.reshape((2, n2 // 2) + arr.shape[1:]))
+            with np.errstate(all="ignore"):
+                if kind == "pp":
+                    gv = np.asarray(g.dist(grid(a), grid(b)))
+                elif kind == "ph":
+                    gv = np.asarray(g.dist(grid(h), grid(p)))
+                elif kind == "ang2":
+                    gv = np.asarray(g.angle(grid(a), grid(b), grid(c)))
+                elif kind == "parline-obj":
+                    gv = np.asarray(g.dist(plane, grid(lines)))
+                else:
+                    gv = np.asarray(g.dist(obj, grid(pts)))
+            if gv.shape != (2, n2 // 2) or not np.allclose(gv.reshape(-1), val[:n2], atol=1e-9, equal_nan=True):
+                out.append(dict(site=f"{kind}/collection/two-axes", stratum="general", case={"count": n2}, expected="the values of the one-axis collection, arranged 2 x n/2",
+                                observed={"shape": list(gv.shape), "first": np.asarray(gv).reshape(-1)[:6].tolist(), "one-axis": val[:6].tolist()}))
         for i, r in enumerate(recs):
             ok = cls_ok(val[i], r["r"]["cs"]) if kind == "ang2" else d2_ok(val[i], r["r"]["d2"])
             if not ok:
